@@ -98,4 +98,30 @@ def obligations(tier):
     obs.append(unwrap('beltCHEUnwrap', 'CHE', 'beltCHEUnwrap', aead))
     kwp = [(c, 0, l, a) for c in (32, 33, 48) for l in (16, 24, 32) for a in (0, 1) if l == 32 or c == 32]
     obs.append(unwrap('beltKWPUnwrap', 'KWP', 'beltKWPUnwrap', kwp))
+    # ---- (3) allocation failure
+    MEMA = ('src/core/mem.c', {'remove': ['memIsDisjoint2', 'memWipe', 'memAlloc', 'memFree']})
+    COREA = [MEMA] + CORE[1:]
+    BELTA = COREA + ['src/math/ww.c', LCL, BLOCK] + MODES + [B + 'belt_fmt.c']
+    AM = ['harness/C09/alloc_model.c']
+    def oom(fn, which, tuples, srcs, stub_files, stubs, **kw):
+        inst = [('o_%d_%d_%d' % t, '%s, %d, %d, %d' % ((which,) + t)) for t in tuples]
+        d = dict(name='c09_oom_' + fn, harness='harness/C09/oom.c', instances=inst, srcs=srcs, stub_files=stub_files + AM, blob_exact=True, malloc_may_fail=True,
+                 unwind=90, unwind_rules=[(r'^(belt|bash|brng|botp)\w+Step\w*\.\d+$', 8), (r'^brngBlockInc\.', 5)], timeout=240, mem_gb=6,
+                 cbmc_extra=['--max-field-sensitivity-array-size', '2048', '--memory-leak-check'], funcs=[fn], stubs=stubs + ['alloc_model', 'mem_model'], replay='asan',
+                 bound='concrete (data length, second length, key length) tuples %s; every malloc may fail; key, data, iv, mac/header symbolic' % (tuples,))
+        d.update(kw)
+        return Ob(**d)
+    for which, fn, tu, st in (('ECB_E', 'beltECBEncr', [(17, 0, 32)], UF), ('ECB_D', 'beltECBDecr', [(17, 0, 32)], UF), ('CBC_E', 'beltCBCEncr', [(17, 0, 32)], UF), ('CBC_D', 'beltCBCDecr', [(17, 0, 32)], UF),
+                              ('CFB_E', 'beltCFBEncr', [(17, 0, 32)], UFE), ('CFB_D', 'beltCFBDecr', [(17, 0, 32)], UFE), ('CTR', 'beltCTR', [(17, 0, 32)], UFE), ('MAC', 'beltMAC', [(17, 0, 32)], UFE),
+                              ('DWP_W', 'beltDWPWrap', [(17, 7, 32)], UFE), ('DWP_U', 'beltDWPUnwrap', [(17, 7, 32)], UFE), ('CHE_W', 'beltCHEWrap', [(17, 7, 32)], UFE), ('CHE_U', 'beltCHEUnwrap', [(17, 7, 32)], UFE),
+                              ('KWP_W', 'beltKWPWrap', [(16, 0, 32)], UFE), ('KWP_U', 'beltKWPUnwrap', [(32, 0, 32)], UFE), ('HASH', 'beltHash', [(33, 0, 0)], UFE),
+                              ('BDE_E', 'beltBDEEncr', [(32, 0, 32)], UF), ('BDE_D', 'beltBDEDecr', [(32, 0, 32)], UF), ('SDE_E', 'beltSDEEncr', [(32, 0, 32)], UFE), ('SDE_D', 'beltSDEDecr', [(32, 0, 32)], UFE),
+                              ('FMT_E', 'beltFMTEncr', [(5, 0, 32)], UFE), ('FMT_D', 'beltFMTDecr', [(5, 0, 32)], UFE), ('KRP', 'beltKRP', [(0, 16, 32)], UFE),
+                              ('HMAC', 'beltHMAC', [(33, 0, 32)], UFE), ('PBKDF2', 'beltPBKDF2', [(8, 2, 9)], UFE)):
+        obs.append(oom(fn, which, tu, BELTA, st, ['belt_block_uf' if st is UF else 'belt_block_uf_e', 'polymul_uf']))
+    obs.append(oom('brngCTRRand', 'BRNG_CTR', [(5, 0, 32)], BELTA + BRNG, UFE, ['belt_block_uf_e']))
+    obs.append(oom('brngHMACRand', 'BRNG_HMAC', [(5, 16, 32)], BELTA + BRNG, UFE, ['belt_block_uf_e']))
+    for which, fn in (('HOTP_R', 'botpHOTPRand'), ('HOTP_V', 'botpHOTPVerify'), ('TOTP_R', 'botpTOTPRand'), ('TOTP_V', 'botpTOTPVerify')):
+        obs.append(oom(fn, which, [(6, 0, 32)], BELTA + BOTP, UFE, ['belt_block_uf_e']))
+    obs.append(oom('bashHash', 'BASH', [(40, 32, 0)], COREA + BASH, ['stubs/bashf_uf.c', DJ], ['bashf_uf'], unwind=200))
     return obs
